@@ -14,6 +14,8 @@
   Vocabulary (lemma files, namespace Ioc.M2.Lc): see C05_vocabulary below.
 -/
 import IocProofs.Lemmas.M2LogDeps
+import Ioc.FactorySkel
+import Ioc.Generated.Facts
 import IocProofs.Lemmas.M2LogEarly
 import IocProofs.Lemmas.M2Examples
 namespace Ioc.C05
@@ -225,5 +227,10 @@ example : ¬ Reaches cyc 3 2 ∧ Reaches cyc 0 2 := by
   · have h1 : Reaches cyc 0 1 :=
       Reaches.tail (Reaches.refl 0) ⟨pt [1], by simp [pts, cyc, benign, cycPoints], by simp [pt]⟩
     exact Reaches.tail h1 ⟨pt [2], by simp [pts, cyc, benign, cycPoints], by simp [pt]⟩
+
+
+/-- regenerated fact: in doCreateComponent populateComponent precedes InitializeComponent, and populateComponent runs
+    ResolveAfterInstantiation before any dependency is fetched and Inject after all candidates of a point were fetched -/
+theorem C05_create_skeleton : Ioc.Facts.factorySkel = Ioc.expectedFactorySkel := rfl
 
 end Ioc.C05
